@@ -84,6 +84,7 @@ type Sim struct {
 	statsMu  sync.Mutex
 
 	strategy int
+	victim   int
 	stickyP  int
 	prio     map[int]int
 }
@@ -620,10 +621,20 @@ func (s *Sim) loop() string {
 	}
 }
 
+// Starve switches to the starvation strategy with goroutine id as the victim (harness-directed
+// bias; the decision to call it must itself come from the tape).
+func (s *Sim) Starve(id int) { s.strategy, s.victim = 4, id }
+
+// LastSpawnedID is the id given to the most recently created goroutine.
+func (s *Sim) LastSpawnedID() int { s.mu.Lock(); defer s.mu.Unlock(); return s.nextID }
+
 // scheduling strategies; the strategy itself is a schedule-stream decision made at start
 func (s *Sim) initStrategy() {
-	s.strategy = s.Choose(Schedule, 4, "strategy")
+	s.strategy = s.Choose(Schedule, 5, "strategy")
 	s.stickyP = 1 + s.Choose(Schedule, 9, "sticky-p")
+	if s.strategy == 4 {
+		s.victim = 2 + s.Choose(Schedule, 8, "victim")
+	}
 }
 
 func (s *Sim) pick(en []*G) int {
@@ -663,6 +674,25 @@ func (s *Sim) pick(en []*G) int {
 			s.prio[en[bi].ID] = 0
 		}
 		return bi
+	case 4: // starve one goroutine (the victim-th created): it runs only when nothing else can,
+		// or with probability 1/50; the others are picked uniformly
+		vi := -1
+		for i, g := range en {
+			if g.ID == s.victim {
+				vi = i
+			}
+		}
+		if vi < 0 {
+			return s.Choose(Schedule, n, "sched")
+		}
+		if s.Choose(Schedule, 50, "victim-runs") == 49 {
+			return vi
+		}
+		k := s.Choose(Schedule, n-1, "sched")
+		if k >= vi {
+			k++
+		}
+		return k
 	default:
 		return s.Choose(Schedule, n, "sched")
 	}
